@@ -636,11 +636,13 @@ def purity_guards(F, rep):
                     t = pp(o["e"])
                     return "Purity::Pure" in t and "purity" in t
 
+                fexpr_ = F.fn(TC + "expression")
+
                 def settles_open(n_):
                     # `if ctx.inside_pure && matches!(purity, Purity::Undefined) { unify(callee, Function(.., Purity::Pure))? }`: the open
                     # purity is settled to Pure by the call (as for a callee that is not known yet) - afterwards the callee is Pure
                     sh_ = _cond_shape(n_["c"], "inside_pure")
-                    if not (sh_ and sh_[0] == "and" and "Purity::Undefined" in pp(sh_[1]) and "Purity::Pure" not in pp(sh_[1])):
+                    if not (sh_ and sh_[0] == "and" and "Purity::Undefined" in tc.cond_text(fexpr_, sh_[1]) and "Purity::Pure" not in tc.cond_text(fexpr_, sh_[1])):
                         return False
                     made = [c_ for c_ in nodes(n_["t"], "Call") if (callee(c_) or "").endswith("Type::Function") and len(c_["args"]) == 3
                             and pp(peel(c_["args"][2])).endswith("Purity::Pure")]
